@@ -28,6 +28,7 @@ EXPLANATION = (
     "copy's classes; LazyRegistry initialises exactly like UnitRegistry. Does not decide equality after a round trip for "
     "concrete objects.")
 EXPLANATION += ' Also decided (rules added after the second round of seeded changes): _unpickle parses each unit name unconditionally (no guard derived from a cache or membership test).'
+EXPLANATION += ' Also decided (round 5, defects D35/D36): a PlainUnit method wraps the other operand as a quantity/unit of its own registry only after self._check(other) has executed; every special method that the interpreter looks up on the type and that the registry defines (__getitem__, __call__, __iter__, __contains__, __dir__) has a forwarder on LazyRegistry that builds the registry first, and on ApplicationRegistry one that reaches the wrapped registry.'
 
 
 def _init_assignments(init):
